@@ -63,9 +63,9 @@ impl<'r, TC: ModelCfg> HistVisitor<TC> for V4<'r> {
 pub fn run(args: &Args) -> i32 {
     let rep = Report::new("C04", &args.tier, "exploration");
     let plan = if args.quick() {
-        Plan { base_depth: 2, ext_depth: 2, chains: vec![(17, 1)], cache: CacheCfg::None, par: AzksParallelismConfig::disabled() }
+        Plan { base_depth: 2, ext_depth: 2, chains: vec![(17, 1)], shape_depth: 2, cache: CacheCfg::None, par: AzksParallelismConfig::disabled() }
     } else {
-        Plan { base_depth: 3, ext_depth: 3, chains: vec![(33, 1), (17, 2)], cache: CacheCfg::None, par: AzksParallelismConfig::disabled() }
+        Plan { base_depth: 3, ext_depth: 3, chains: vec![(33, 1), (17, 2)], shape_depth: 2, cache: CacheCfg::None, par: AzksParallelismConfig::disabled() }
     };
     let v = V4 { rep: &rep };
     run_plan(args.threads, &plan, &v);
